@@ -33,7 +33,8 @@ PROPS = {
     'C17': {'quick': ['A', 'B'], 'thorough': ALLCFG, 'level': 'proof', 'e2': True, 'roots': 'all'},
     'C06': {'quick': ['A', 'B', 'C', 'D'], 'thorough': ['A', 'B', 'C', 'D', 'E'], 'level': 'proof', 'e2': False},
     # behavioural properties: outcome schemas on the anchor roots of the property
-    'C12': {'quick': ['A', 'B'], 'thorough': ALLCFG, 'level': 'proof', 'e2': True, 'roots': 'anchors'},
+    # (C12 also on the serde build: the deserialisation visitors are insertion paths too)
+    'C12': {'quick': ['A', 'B', 'D'], 'thorough': ALLCFG + ['D'], 'level': 'proof', 'e2': True, 'roots': 'anchors'},
     'C01': {'quick': ['A', 'B'], 'thorough': ALLCFG, 'level': 'other', 'e2': True, 'roots': 'anchors'},
     'C07': {'quick': ['A', 'B'], 'thorough': ALLCFG, 'level': 'other', 'e2': True, 'roots': 'anchors'},
     'C11': {'quick': ['A', 'B'], 'thorough': ALLCFG, 'level': 'other', 'e2': True, 'roots': 'anchors'},
@@ -224,6 +225,9 @@ def e2_collect(pid, facts, merged):
                 ob += n_w + n_cen
                 dis += n_w - len(w) + n_cen - len(cen)
             anchors = specs.anchors(pid)
+            if cfg != 'D':
+                # (the serde visitors exist in the serde build only: anchored there)
+                anchors = [k for k in anchors if 'serialization' not in (k[0] or '')]
             for k in anchors:
                 if tuple(k) not in have:
                     a = graph.V('ANCHOR', 'missing-anchor', '<crate>', '%s::%s' % (k[0], k[2]),
